@@ -699,6 +699,26 @@ def fixed_programs():
             if nm != "Shape":
                 body += [Echo(Fld(Var(v), "ctag")), Echo(MCall(Var(v), "late2"))]
         out.append(Program([Func("main", [], VOID, body)], [log, shape, circle, dot]))
+    # overload sets over a three-level hierarchy where SEVERAL arguments need a conversion: the overload that executes is the closest
+    # one over all parameters together (constructors, methods, free functions; arguments of the most derived class)
+    ani = Class("Animal", "", [], [], [Ctor([], [])], [])
+    dog = Class("Dog", "Animal", [], [], [Ctor([], [Super()])], [])
+    pup = Class("Puppy", "Dog", [], [], [Ctor([], [Super()])], [])
+    CA, CD, CP = C("Animal"), C("Dog"), C("Puppy")
+    pairc = Class("Pair", "", [Field(INT, "tag")],
+                  [Method("meet", [Param(CA, "a"), Param(CA, "b")], INT, [Ret(I(10))]), Method("meet", [Param(CD, "a"), Param(CA, "b")], INT, [Ret(I(20))]),
+                   Method("both", [Param(CA, "a"), Param(CD, "b")], INT, [Ret(I(30))]), Method("both", [Param(CD, "a"), Param(CD, "b")], INT, [Ret(I(40))]),
+                   Method("three", [Param(CA, "a"), Param(CA, "b"), Param(CA, "c")], INT, [Ret(I(50))]),
+                   Method("three", [Param(CD, "a"), Param(CD, "b"), Param(CA, "c")], INT, [Ret(I(60))])],
+                  [Ctor([Param(CA, "a"), Param(CA, "b")], [Expr(FAsg(This(), "tag", I(1)))]), Ctor([Param(CD, "a"), Param(CA, "b")], [Expr(FAsg(This(), "tag", I(2)))])], [])
+    fa = Func("greet", [Param(CA, "a"), Param(CA, "b")], INT, [Ret(I(70))])
+    body = [Decl(CP, "p", New("Puppy")), Decl(CP, "q", New("Puppy")), Decl(CD, "d", New("Dog")), Decl(CA, "a", New("Animal")),
+            Decl(C("Pair"), "x", New("Pair", Var("d"), Var("a"))), Echo(Fld(Var("x"), "tag")), Echo(MCall(Var("x"), "meet", Var("d"), Var("a"))),
+            Decl(C("Pair"), "y", New("Pair", Var("p"), Var("q"))), Echo(Fld(Var("y"), "tag")), Echo(MCall(Var("y"), "meet", Var("p"), Var("q"))),
+            Echo(MCall(Var("y"), "both", Var("p"), Var("q"))), Echo(MCall(Var("y"), "both", Var("a"), Var("p"))), Echo(MCall(Var("y"), "three", Var("p"), Var("q"), Var("p"))),
+            Echo(MCall(Var("y"), "three", Var("p"), Var("a"), Var("p"))), Echo(MCall(Var("y"), "meet", Var("p"), Var("a"))), Echo(Call("greet", Var("p"), Var("q"))),
+            Decl(C("Pair"), "z", New("Pair", Var("a"), Var("p"))), Echo(Fld(Var("z"), "tag"))]
+    out.append(Program([fa, Func("main", [], VOID, body)], [ani, dog, pup, pairc]))
     # element assignments whose index or value expression calls a method that itself writes the same field array: the writes made by
     # the call persist (a[0] = bump() behaves like 't = bump(); a[0] = t'), for instance fields, static fields and through a relay
     IA = A("int")
